@@ -509,7 +509,8 @@ func (s *storage) cleanupArchetypes(target Entity) {
 			table := &s.tables[tables.tables[i]]
 
 			for _, rel := range table.relationIDs {
-				if rel.target.id == target.id {
+				// Also detach from targets that were removed in the same batch, but are not cleaned up yet.
+				if rel.target.id == target.id || (!rel.target.IsZero() && !s.entityPool.Alive(rel.target)) {
 					newRelations = append(newRelations, relationID{component: rel.component, target: Entity{}})
 				}
 			}
